@@ -43,6 +43,7 @@ type World struct {
 	fwd      *fakeForwarder
 	pipe     *processor.Pipeline
 	dbfile   string
+	rxDelay  time.Duration
 	tmpdir   string
 	cfg      server.Parameters
 	mu       sync.Mutex
@@ -176,12 +177,13 @@ func (w *World) threadIndex(g uint64) (int, bool) {
 
 type worldOpts struct {
 	netID             uint
+	rxDelay           time.Duration // receive-window delay of the scheduler (0: answer at once)
 	disableNonceCheck bool
 	dbfile            string // "" = memory
 }
 
 func newWorld(o worldOpts) *World {
-	w := &World{dbfile: o.dbfile, parked: map[uint64]*parkedG{}, failNext: map[uint64]error{}, dead: map[uint64]bool{}}
+	w := &World{rxDelay: o.rxDelay, dbfile: o.dbfile, parked: map[uint64]*parkedG{}, failNext: map[uint64]error{}, dead: map[uint64]bool{}}
 	w.cond = sync.NewCond(&w.mu)
 	w.cfg = server.Parameters{NetworkID: o.netID, DisableNonceCheck: o.disableNonceCheck, MA: "00-00-00", ConnectionString: ":memory:"}
 	w.open()
@@ -215,7 +217,7 @@ func (w *World) open() {
 	w.ctx = &server.Context{Storage: st, FrameOutput: w.fob, Config: &cfg, AppRouter: &appRouter, GwEventRouter: &gwRouter, Terminator: make(chan bool)}
 	w.fwd = &fakeForwarder{in: make(chan server.GatewayPacket), out: make(chan server.GatewayPacket)}
 	w.pipe = processor.NewPipeline(w.ctx, w.fwd)
-	w.pipe.Scheduler.SetRXDelay(0)
+	w.pipe.Scheduler.SetRXDelay(w.rxDelay)
 	w.pubch = map[protocol.EUI]<-chan *server.PayloadMessage{}
 	worldMu.Lock()
 	currentWorld = w
